@@ -402,7 +402,7 @@ def main():
             for (k, _) in compare_line(f['ops'][j], c2[j], l2[j]):
                 if k in f['kinds']: reproduced = True
         if reproduced:
-            print('KNOWN-FINDING: property=%s %s: %s' % (pid, f['id'], f['what']))
+            print('KNOWN-FINDING: property=%s %s: %s' % (pid, f['id'], f.get('short', f['what'])))
         kcov.append({'id': f['id'], 'reproduced': reproduced, 'class_hits_in_streams': known_hits.get(f['id'], 0)})
     cov['known_findings'] = kcov
     cov['fixed_findings'] = [x for x in kf.get('fixed', []) if pid in x.get('properties', [])]
